@@ -629,3 +629,51 @@ def check_conde_fold(ctx, lib, rule, mode):
             ctx.violation(rule, key + "|fold-order", site, "unrecognised fold sequence %s (expected reversed clauses 1.. then clause 0 last)" % order)
 
 
+
+
+# operator entry point -> (goal kind of its body parameter, goal kind it returns)
+OPERATOR_KINDS = {
+    "conde::conde": ("Goal", "Goal"),
+    "matche::matche": ("Goal", "Goal"),
+    "conda::conda": ("Goal", "Goal"),
+    "condu::condu": ("Goal", "Goal"),
+    "matcha::matcha": ("Goal", "Goal"),
+    "matchu::matchu": ("Goal", "Goal"),
+    "anyo::anyo": ("Goal", "Goal"),
+    "onceo::onceo": ("Goal", "Goal"),
+    "dfs::dfs": ("DFSGoal", "InferredGoal"),
+    "conde::cond": ("G", "InferredGoal"),
+    "everyg::everyg": ("G", "InferredGoal"),
+}
+
+
+def check_operator_kinds(ctx, lib, rule):
+    """Which search a disjunction runs is decided by the *type* of the goals it was built from (Conde::solve
+    downcasts to Conde<Goal> / Conde<DFSGoal>; a DFSGoal casts silently into any Goal context).  So the
+    named operators' signatures are part of the semantics: conde / matche / conda / condu / matcha / matchu /
+    anyo / onceo take and return interleaving goals, `dfs` is the only one whose body is depth-first, and
+    `cond` / `for` inherit the kind of their context (generic G).  Read from the typed signatures."""
+    n = 0
+    for name, (pk, rk) in sorted(OPERATOR_KINDS.items()):
+        fn = lib.fn("crate::operator::" + name)
+        if fn is None:
+            continue
+        n += 1
+        ctx.fn_seen(fn["npath"])
+        ins = fn.get("inputs") or []
+        out = fn.get("output") or ""
+
+        def kind_of(ty):
+            # last generic argument of the parameter struct / the returned goal type itself
+            if "goal::DFSGoal<" in ty:
+                return "DFSGoal"
+            if "goal::Goal<" in ty:
+                return "Goal"
+            if "goal::InferredGoal<" in ty:
+                return "InferredGoal"
+            return "G"
+
+        pin = kind_of(ins[0]) if len(ins) == 1 else "?"
+        pout = kind_of(out)
+        ctx.expect((pin, pout) == (pk, rk), rule, "operator::%s|body=%s,result=%s" % (name, pk, rk), site_of(fn), "operator `%s` must take %s clauses and return %s (the goal type selects interleaving vs depth-first search); signature is (%s) -> %s" % (name.split("::")[-1], pk, rk, ", ".join(ins), out))
+    ctx.floor(rule, n, 10, "operator entry points")
